@@ -20,6 +20,10 @@ static nni_mtx        reap_mtx;
 static nni_cv         reap_work_cv;
 static nni_cv         reap_empty_cv;
 
+#ifdef NNG_VERIF
+extern nni_atomic_int nni_verif_inflight; // taskq.c (verification hook H2q)
+#endif
+
 static void
 reap_worker(void *unused)
 {
@@ -53,6 +57,9 @@ reap_worker(void *unused)
 				ptr  = ((char *) node) - offset;
 				node = node->rn_next;
 				func(ptr);
+#ifdef NNG_VERIF
+				nni_atomic_dec(&nni_verif_inflight);
+#endif
 			}
 			nni_mtx_lock(&reap_mtx);
 		}
@@ -73,6 +80,9 @@ nni_reap(nni_reap_list *rl, void *item)
 {
 	nni_reap_node *node;
 
+#ifdef NNG_VERIF
+	nni_atomic_inc(&nni_verif_inflight);
+#endif
 	nni_mtx_lock(&reap_mtx);
 	if (!rl->rl_inited) {
 		rl->rl_inited = true;
